@@ -197,6 +197,9 @@ func fmtErr(err error) string {
 			items = append(items, "E:"+we.Message())
 		}
 	}
+	if len(items) > 16 { // a correct aggregate has one item per child; keep a runaway chain printable
+		items = append(items[:16], "...")
+	}
 	return "ret=" + strconv.Itoa(e.Count()) + "[" + strings.Join(items, ",") + "]"
 }
 
@@ -262,7 +265,16 @@ func (ss *session) sentinels() string {
 	parts := make([]string, 0, len(ids))
 	for _, id := range ids {
 		e := ss.sinks[id].sentinel
-		parts = append(parts, fmt.Sprintf("%d:%d:%s", id, e.Count(), hx.Hex([]byte(e.Message()))))
+		if e.Count() > 64 { // something keeps growing a child's error: stop the history before it eats the machine
+			ss.dead = true
+			parts = append(parts, fmt.Sprintf("%d:%d:runaway", id, e.Count()))
+			continue
+		}
+		msg := e.Message()
+		if len(msg) > 64 { // a sentinel's message never changes; keep a runaway chain printable
+			msg = msg[:64] + "~" + strconv.Itoa(len(msg))
+		}
+		parts = append(parts, fmt.Sprintf("%d:%d:%s", id, e.Count(), hx.Hex([]byte(msg))))
 	}
 	return "sent=" + strings.Join(parts, ",")
 }
